@@ -198,6 +198,7 @@ func (x *Exec) callValue(fr *Frame, st *State, c *ssa.CallCommon, fval Value, ar
 		if fn == x.root && fr.depth == 0 {
 			// recursive call of the function under verification: use its own contract
 		}
+		ret = x.noRetain(st, con, ret)
 		x.escapeArgs(st, args)
 		if fv != nil {
 			x.escapeArgs(st, fv.Free)
@@ -292,7 +293,7 @@ func (x *Exec) freshResult1(st *State, t types.Type, hint string) Value {
 
 // havocCall forgets everything an unknown callee could change.
 func (x *Exec) havocCall(fr *Frame, st *State, c *ssa.CallCommon, args []Value, who string) {
-	x.heapHavocAll(st)
+	x.heapHavocAllCallee(st)
 }
 
 // ---------- interface method invocation ----------
@@ -349,13 +350,14 @@ func (x *Exec) invoke(fr *Frame, st *State, c *ssa.CallCommon, recv *IfaceV, arg
 		return
 	}
 	x.note("uncontracted-call (interface) " + key)
-	x.heapHavocAll(st)
+	x.heapHavocAllCallee(st)
 	ret(fr, st, x.freshResult(st, rt, "inv."+c.Method.Name()))
 }
 
 func (x *Exec) callStatic(fr *Frame, st *State, fn *ssa.Function, fv *FuncV, args []Value, rt types.Type, ret callK, k func(*pathEnd)) {
 	key := funcKey(fn)
 	if con := x.CS.Funcs[key]; con != nil && !con.Inline {
+		ret = x.noRetain(st, con, ret)
 		x.escapeArgs(st, args)
 		x.applyContract(fr, st, fn, con, args, ret)
 		return
@@ -366,7 +368,7 @@ func (x *Exec) callStatic(fr *Frame, st *State, fn *ssa.Function, fv *FuncV, arg
 	}
 	x.escapeArgs(st, args)
 	x.note("uncontracted-call " + key)
-	x.heapHavocAll(st)
+	x.heapHavocAllCallee(st)
 	ret(fr, st, x.freshResult(st, rt, "call."+fn.Name()))
 }
 
@@ -568,7 +570,7 @@ func (x *Exec) havocFrame(fr *Frame, st *State, con *FuncContract, env *SpecEnv)
 		}
 	}
 	if len(assigns) == 0 {
-		x.heapHavocAll(st)
+		x.heapHavocAllCallee(st)
 		return
 	}
 	for _, c := range assigns {
@@ -578,7 +580,7 @@ func (x *Exec) havocFrame(fr *Frame, st *State, con *FuncContract, env *SpecEnv)
 				continue
 			}
 			if item == "heap" || item == "everything" {
-				x.heapHavocAll(st)
+				x.heapHavocAllCallee(st)
 				continue
 			}
 			x.havocLocation(st, env, item)
@@ -703,10 +705,30 @@ func (x *Exec) havocLocation(st *State, env *SpecEnv, item string) {
 			unsupported("assigns: %v", err)
 		}
 		tv := x.evalSpec(env, e)
-		p := tv.V.(*PtrV)
+		var ref *Term
+		switch p := tv.V.(type) {
+		case *PtrV:
+			ref = p.Ref
+		case *IfaceV:
+			ref = p.Ref
+		default:
+			unsupported("assigns gf(): pointer expected")
+		}
 		name := "GF:" + strings.TrimSpace(parts[1])
 		arr := x.heapArr(st, name, SInt, SBV64)
-		st.heap[name] = Store(arr, p.Ref, x.freshSym("hv.gf", SBV64))
+		st.heap[name] = Store(arr, ref, x.freshSym("hv.gf", SBV64))
+		return
+	}
+	if ns, ok := x.wholeArrayItem(env.typesPkg(), item); ok {
+		x.havocWhole(st, ns)
+		return
+	}
+	if pn, ok := reachItemParam(item); ok {
+		e, err := ParseExpr(pn)
+		if err != nil {
+			unsupported("assigns: %v", err)
+		}
+		x.havocReach(st, x.evalSpec(env, e).V)
 		return
 	}
 	if strings.HasPrefix(item, "val(") && strings.HasSuffix(item, ")") {
@@ -805,6 +827,18 @@ func (x *Exec) checkFrame(fr *Frame, con *FuncContract, env *SpecEnv, st, pre *S
 						}
 					}
 				}
+			case strings.HasPrefix(item, "reach("):
+				unsupported("assigns reach(p) can only be assumed (trusted contracts), not proved")
+			case strings.HasPrefix(item, "cells(") || strings.HasPrefix(item, "elems(") || strings.HasPrefix(item, "gfall("):
+				ns, _ := x.wholeArrayItem(penv.typesPkg(), item)
+				for _, n := range ns {
+					get(n).any = true
+					for hn := range st.heap {
+						if strings.HasPrefix(hn, n+".") {
+							get(hn).any = true
+						}
+					}
+				}
 			case strings.HasPrefix(item, "gf("):
 				parts := splitTop(item[3:len(item)-1], ',')
 				e, _ := ParseExpr(parts[0])
@@ -861,6 +895,41 @@ func (x *Exec) checkFrame(fr *Frame, con *FuncContract, env *SpecEnv, st, pre *S
 			lab = lab[i+1:]
 		}
 		x.emit(st, "frame", lab, g, false, "")
+	}
+	// arrays forgotten by name (a loop cut at its header, a callee's whole-array frame) that were
+	// never read at entry have no entry version to compare with: they count as written
+	var hv []string
+	for k := range st.ghost {
+		if strings.HasPrefix(k, "$havoc:") {
+			hv = append(hv, k[7:])
+		}
+	}
+	sort.Strings(hv)
+	for _, pfx := range hv {
+		if root, ok := x.loopBaseGen(st, pfx); ok && root == "0" {
+			continue // only objects allocated during the call were written
+		}
+		covered := false
+		for n, a := range allowed {
+			if (n == pfx || strings.HasPrefix(pfx, n+".") || strings.HasPrefix(n, pfx+".")) && (a.any || len(a.idxs) > 0) {
+				covered = true
+			}
+		}
+		for n := range x.heap0 {
+			if n == pfx || strings.HasPrefix(n, pfx+".") {
+				if _, have := st.heap[n]; have {
+					covered = true
+				}
+			}
+		}
+		if covered {
+			continue
+		}
+		lab := pfx
+		if i := strings.LastIndex(lab, "/"); i >= 0 {
+			lab = lab[i+1:]
+		}
+		x.emit(st, "frame", lab, TFalse, false, "an array never read at entry was forgotten by name (loop or callee frame) and is not in the assigns clause")
 	}
 }
 
